@@ -233,7 +233,7 @@ class SymEval:
                         return self.ev(cv[1], Scope({}))
                     return cv
             if "::" in p and last[:1].isupper():
-                return ("enum", "::".join(p.split("::")[-2:]), [])
+                return ("enum", self.enum_name(p), [])
             if "::" in p or self.h.resolve_fn(p) is not None:
                 return ("fnref", p)         # a function or method named as a value (`.map(Type::method)`)
             self.fail("unknown name %s" % p)
@@ -431,7 +431,10 @@ class SymEval:
                 elif isinstance(old_, tuple) and old_ and old_[0] in ("str", "fmt"):
                     lv[1](("str", ""))
                 else:
-                    self.fail("mem::take of a value whose default is unknown", e)
+                    d_ = self.h.call("Default::default:of", [old_], e)      # the rule's hooks may know the default of their own values
+                    if d_ is NotImplemented:
+                        self.fail("mem::take of a value whose default is unknown", e)
+                    lv[1](d_)
                 return old_
             if p.endswith("mem::swap") and len(e[2]) == 2:
                 la, lb = self.lvalue(e[2][0], env), self.lvalue(e[2][1], env)
@@ -501,7 +504,7 @@ class SymEval:
             if p.endswith("Vec::with_capacity") and len(args) == 1:
                 return ("list", [])
             if "::" in p and p.split("::")[-1][:1].isupper():
-                return ("enum", "::".join(p.split("::")[-2:]), args)
+                return ("enum", self.enum_name(p), args)
             fn = self.h.resolve_fn(p)
             if fn is not None and self.depth < 6:
                 ps = [q[0] for q in fn["sig"]["params"] if q[0] != "self"]
@@ -816,6 +819,14 @@ class SymEval:
             return all(self.concrete(x) for x in v)
         return True
 
+    def enum_name(self, p):
+        segs = p.split("::")[-2:]
+        if segs[0] == "Self":       # `Self::Variant` inside an impl: the type being implemented
+            st = getattr(self.h, "self_ty", None) or getattr(self, "fn_self_ty", None)
+            if isinstance(st, str) and st:
+                segs[0] = st.split("<")[0].split("::")[-1]
+        return "::".join(segs)
+
     def apply(self, clo, args):
         if isinstance(clo, tuple) and clo[0] == "constfn":
             return clo[1]
@@ -1018,6 +1029,17 @@ class SymEval:
                 return sum(items)
             if m == "count" and not args:
                 return len(items)
+            if m == "filter_map" and len(args) == 1:
+                out_ = []
+                for x in items:
+                    t = self.apply(args[0], [x])
+                    if t == NONE:
+                        continue
+                    if isinstance(t, tuple) and t and t[0] == "some":
+                        out_.append(t[1])
+                    else:
+                        self.fail("filter_map closure of unknown result shape", e)
+                return ("list", out_)
             if m in ("find", "position", "any", "all", "find_map", "filter") and len(args) == 1:
                 res = []
                 for i, x in enumerate(items):
